@@ -168,6 +168,14 @@ def rtOk (cfg : Cfg) (mtu : UInt16) : List (List (Nat × Bytes)) → List (Optio
   | f :: fs, some o :: os => callOk cfg mtu (f.map (·.2)) o && rtOk cfg mtu fs os
   | _, _ => false
 
+/-- a sequence of calls on one payloader whose exported option fields (`AddDONL`,
+    `SkipAggregation`) are set by hand before each call: every call is judged with the options it
+    was made with (and its packets are parsed by a receiver told the same DONL setting) -/
+def rtOkF (mtu : UInt16) : List (Cfg × List (Nat × Bytes)) → List (Option (List PktObs)) → Bool
+  | [], [] => true
+  | (cfg, f) :: fs, some o :: os => callOk cfg mtu (f.map (·.2)) o && rtOkF mtu fs os
+  | _, _ => false
+
 /-- nothing panicked (what remains of the property outside its hypotheses) -/
 def rtNoPanic (o : List (Option (List PktObs))) : Bool :=
   o.all fun c => match c with
